@@ -9,6 +9,7 @@ parameter must equal its expression applied to the most recent outcome of its mo
 measurement, unbound and unknown free parameters must raise ParameterError.  Cross-talk monitor: two programs using
 the same names / modes, run alternately, must each see their own bindings.
 """
+import cmath
 import math
 
 import numpy as np
@@ -18,7 +19,8 @@ from ..instrument import RandomTap, CommandTap
 
 PROPERTY = "C10"
 RULE = ("seeded programs of 1-3 modes in which 1-5 operation parameters are expressions (sums, products, negation, division by "
-        "constants, sin / cos / exp / sqrt / atan2 of free and measured parameters, in first and non-first positions, on gates "
+        "constants, sin / cos / exp / sqrt / atan2 of free and measured parameters, re / im / Abs / arg / conjugate of complex "
+        "(heterodyne, post-selected) outcomes, in first and non-first positions, on gates "
         "that are applied natively and on gates that are decomposed symbolically: Pgate, CXgate, CZgate, S2gate, Xgate, Zgate), "
         "with measure / re-prepare / re-measure histories; pipelines run, optimize-then-run, compile-then-run on gaussian, "
         "bosonic and fock; error cases. non-trivial = >= 1 expression with an operator (not a bare symbol) and the program passes "
@@ -27,7 +29,8 @@ ASSUMPTIONS = [
     "the numeric twin is built by the harness with Python's math module; scripted outcomes make both runs deterministic",
     "TensorFlow-tensor bindings cannot be exercised (tensorflow is not installed)",
 ]
-REQUIRED_MONITORS = ["twin:final-state", "twin:stream", "history:measured-parameter", "errors:raise-ParameterError", "cross-talk"]
+REQUIRED_MONITORS = ["twin:final-state", "twin:stream", "history:measured-parameter", "twin:complex-outcome",
+                     "errors:raise-ParameterError", "cross-talk"]
 
 FUNCS = {
     "id": (lambda x: x, lambda m, x: x),
@@ -45,6 +48,19 @@ FUNCS2 = {
     "sum": (lambda x, y: 0.5 * x + 0.25 * y, lambda m, x, y: 0.5 * x + 0.25 * y),
     "prod": (lambda x, y: 0.7 * x * y, lambda m, x, y: 0.7 * x * y),
     "atan2": (lambda x, y: 0.3 * math.atan2(x, y + 2.0), lambda m, x, y: 0.3 * m.atan2(x, y + 2.0)),
+}
+# functions of a complex (heterodyne) outcome; all real-valued, as gate parameters must be
+CFUNCS = {
+    "re": (lambda z: 0.8 * z.real, lambda m, z: 0.8 * m.re(z)),
+    "im": (lambda z: 0.8 * z.imag, lambda m, z: 0.8 * m.im(z)),
+    "abs": (lambda z: 0.5 * abs(z), lambda m, z: 0.5 * m.Abs(z)),
+    "abs2": (lambda z: abs(z) ** 2, lambda m, z: m.Abs(z) ** 2),
+    "arg": (lambda z: cmath.phase(z), lambda m, z: m.arg(z)),
+    "argconj": (lambda z: cmath.phase(z.conjugate()), lambda m, z: m.arg(m.conjugate(z))),
+    "zconj": (lambda z: (z * z.conjugate()).real, lambda m, z: m.re(z * m.conjugate(z))),
+    "re_iz": (lambda z: (1j * z).real, lambda m, z: m.re(1j * z)),
+    "im_z2": (lambda z: 0.5 * (z * z).imag, lambda m, z: 0.5 * m.im(z * z)),
+    "re_conj_shift": (lambda z: (z.conjugate() + 0.2j).imag, lambda m, z: m.im(m.conjugate(z) + 0.2j)),
 }
 ONE = ["Dgate", "Sgate", "Rgate", "Xgate", "Zgate", "Pgate"]
 TWO = ["BSgate", "S2gate", "CXgate", "CZgate"]
@@ -71,12 +87,19 @@ def gen_case(rng):
     L = int(rng.integers(3, 10))
     cmds = []
     measured = {}
+    het = {}
     free = {}
     for pos in range(L):
         r = rng.random()
         if r < 0.18:
             m = int(rng.integers(n))
-            cmds.append({"op": "MeasureHomodyne", "p": [float(rng.choice([0.0, 0.5]))], "m": [m]})
+            if rng.random() < 0.3:
+                z = [float(rng.uniform(-0.6, 0.6)), float(rng.choice([0.0, float(rng.uniform(-0.6, 0.6))], p=[0.15, 0.85]))]
+                cmds.append({"op": "MeasureHeterodyne", "select": z, "m": [m]})
+                het[m] = z
+            else:
+                cmds.append({"op": "MeasureHomodyne", "p": [float(rng.choice([0.0, 0.5]))], "m": [m]})
+                het.pop(m, None)
             measured[m] = measured.get(m, 0) + 1
             if rng.random() < 0.4:
                 cmds.append({"op": "Coherent", "p": [0.2, 0.3], "m": [m]})  # re-prepare
@@ -101,15 +124,28 @@ def gen_case(rng):
                     name = str(rng.choice(["a", "b", "c"]))
                     free.setdefault(name, float(rng.uniform(-0.8, 0.8)))
                     srcs.append({"kind": "free", "name": name})
-            if rng.random() < 0.35:
+            hsrc = [k for k in cand_meas if k in het]
+            if hsrc and rng.random() < 0.7:
+                k = int(rng.choice(hsrc))
+                c["expr"] = {"pos": posn, "f": str(rng.choice(list(CFUNCS))),
+                             "args": [{"kind": "meas", "mode": k, "het": list(het[k])}]}
+            elif any(s_["kind"] == "meas" and s_["mode"] in het for s_ in srcs):
+                # a complex outcome may only enter through the complex-valued function table
+                srcs = [{"kind": "free", "name": "a"}, {"kind": "free", "name": "a"}]
+                free.setdefault("a", float(rng.uniform(-0.8, 0.8)))
+                c["expr"] = {"pos": posn, "f": str(rng.choice(list(FUNCS))), "args": srcs[:1]}
+            elif rng.random() < 0.35:
                 c["expr"] = {"pos": posn, "f": str(rng.choice(list(FUNCS2))), "args": srcs}
             else:
                 c["expr"] = {"pos": posn, "f": str(rng.choice(list(FUNCS))), "args": srcs[:1]}
         cmds.append(c)
     binding_mode = str(rng.choice(["args", "args", "default", "rebind"]))
+    backend = str(rng.choice(["gaussian", "gaussian", "gaussian", "bosonic", "fock"]))
+    if backend == "fock" and any(c["op"] == "MeasureHeterodyne" for c in cmds):
+        backend = "gaussian"  # the Fock backend has no heterodyne measurement
     return {"n": n, "cmds": cmds, "free": free, "binding": binding_mode,
             "pipeline": str(rng.choice(["run", "run", "optimize", "compile"])),
-            "backend": str(rng.choice(["gaussian", "gaussian", "gaussian", "bosonic", "fock"]))}
+            "backend": backend}
 
 
 def build(env, case, symbolic):
@@ -123,6 +159,10 @@ def build(env, case, symbolic):
                 ops.MeasureHomodyne(c["p"][0]) | q[c["m"][0]]
                 occ[c["m"][0]] = occ.get(c["m"][0], 0) + 1
                 continue
+            if c["op"] == "MeasureHeterodyne":
+                ops.MeasureHeterodyne(select=complex(*c["select"])) | q[c["m"][0]]
+                occ[c["m"][0]] = occ.get(c["m"][0], 0) + 1
+                continue
             if c["op"] == "Coherent":
                 ops.Coherent(*c["p"]) | q[c["m"][0]]
                 continue
@@ -133,13 +173,22 @@ def build(env, case, symbolic):
                     args = []
                     for s in e["args"]:
                         args.append(q[s["mode"]].par if s["kind"] == "meas" else prog.params(s["name"]))
-                    f = FUNCS[e["f"]][1] if len(args) == 1 else FUNCS2[e["f"]][1]
+                    if e["f"] in CFUNCS:
+                        f = CFUNCS[e["f"]][1]
+                    else:
+                        f = FUNCS[e["f"]][1] if len(args) == 1 else FUNCS2[e["f"]][1]
                     p[e["pos"]] = f(sf.math, *args)
                 else:
                     args = []
                     for s in e["args"]:
-                        args.append(outcome(s["mode"], occ[s["mode"]]) if s["kind"] == "meas" else case["free"][s["name"]])
-                    f = FUNCS[e["f"]][0] if len(args) == 1 else FUNCS2[e["f"]][0]
+                        if s["kind"] == "meas" and s.get("het"):
+                            args.append(complex(*s["het"]))
+                        else:
+                            args.append(outcome(s["mode"], occ[s["mode"]]) if s["kind"] == "meas" else case["free"][s["name"]])
+                    if e["f"] in CFUNCS:
+                        f = CFUNCS[e["f"]][0]
+                    else:
+                        f = FUNCS[e["f"]][0] if len(args) == 1 else FUNCS2[e["f"]][0]
                     p[e["pos"]] = f(*args)
             op = getattr(ops, c["op"])(*p)
             if c.get("dag"):
@@ -292,6 +341,8 @@ def run_case(case, rep, env):
     # history monitor: the twin was built from "latest outcome of the mode"; equality of the streams above is the check
     if any(s["kind"] == "meas" for c in case["cmds"] if c.get("expr") for s in c["expr"]["args"]):
         rep.monitor("history:measured-parameter")
+    if any(s.get("het") for c in case["cmds"] if c.get("expr") for s in c["expr"]["args"]):
+        rep.monitor("twin:complex-outcome")
 
 
 def error_cases(env, rep, rng):
